@@ -1,24 +1,39 @@
 import MdsVerif.Proofs.Cache
+import MdsVerif.Proofs.CacheHeap
+import MdsVerif.Props.C05
 import MdsVerif.Drv.C05
 /-!
-# C08 — `cache.Cache` with the LRU store: accounting, callbacks, (conditional) LRU order
+# C08 — `cache.Cache` with the LRU store: accounting, callbacks, LRU order
 
 All theorems are about `Model.Cache.step` — the function the driver stream `C08` runs — over an arbitrary
 size function `sizeOf ≥ 0`, an arbitrary limit `> 0`, arbitrary histories, and every heap configuration
-of the class `CfgOK` (`parent i < i`, `left i > i`, `pop` without upward repair), which contains the
-pinned configuration regenerated from heapq.go (`current_cfg_ok`).
+of the class `CfgOK` (`parent i < i`, `left i > i`; `pop` with or without upward repair), which contains the
+pinned configuration regenerated from heapq.go (`current_cfg_ok`) and the repaired one.
 
 * `C08_accounting`  – the invariant `Inv` holds after every history from the empty cache and no
   operation panics; `C08_observations` spells out what `Inv` means for `Len`, `Size`, `Has`, `Get`,
   a refused `Put`, `Clear`.
 * `C08_callbacks`   – the eviction-callback log: every entry that ever entered is either still present
   or was reported exactly once (multiset conservation), per step and per history.
+* `C08_evicts_only_when_needed` – unconditional: `Put` evicts only while the new entry does not fit, stops
+  as soon as it fits, evicts nothing when it fits at once; the number of victims is the least one for the
+  order in which the store yields its entries.
 * `C08_F2_witness`  – the recorded defect F2: on corpus/C08/F2.ops the pinned model evicts key 9 where
   the reference LRU evicts key 2.  Hence the *victim choice* clause of C08 fails for the pinned heap.
 * `C08_refines_if_evict_min` – the conditional full theorem: on every history on which each `Evict`
   executed by `Put` finds a minimal timestamp at the root of the heap (`runMin`; what a correct heap
   provides, what F2 breaks), model and reference LRU cache produce the same outputs and the same
   callback sequence.
+* `C08_lru_if_no_hit`, `C08_lru_no_interior_removal`, `C08_lru_no_interior_removal_current` – the
+  hypothesis `runMin` discharged, for the pinned configuration (F1 and F2 present), on every history that
+  never touches a present key (no replacing `Put`, no `Get`/`Remove` that hits; `Has`, `Len`, `Size`,
+  `Clear` unrestricted) — in particular on the *syntactic* class `freshKeys []`: the heap is then only
+  changed by `Add` of the newest timestamp and `pop(0)`, both of which keep heap order.
+* `C08_lru_small_cache` – the hypothesis discharged for the pinned configuration on **every** history of a
+  cache that never holds more than 4 entries (sizes `≥ 1`, `limit ≤ 4`): F2 needs a heap of 5.
+* `C08_full_repaired` – for the repaired heap configuration (`CfgRepaired`: `parent i = (i-1)/2`, guarded
+  sift-up in `pop`) the cache refines the reference LRU cache on **every** history: F2 (with F1) is the
+  only obstacle.
 -/
 namespace MdsVerif.Props.C08
 open MdsVerif.Model MdsVerif.Model.Cache MdsVerif.Proofs.Cache MdsVerif.Spec
@@ -29,12 +44,22 @@ def pinned : Heapq.Cfg :=
     heapifyStart := fun n => n / 2, popSiftsUp := false }
 
 theorem pinned_ok : CfgOK pinned :=
-  ⟨fun i hi => by show i / 2 < i; omega, fun i => by show i < 2 * i + 1; omega, rfl⟩
+  ⟨fun i hi => by show i / 2 < i; omega, fun i => by show i < 2 * i + 1; omega⟩
 
-/-- the configuration the driver runs (regenerated from heapq.go on every check) is in the class; this
-fails to elaborate — a broken obligation — as soon as the index arithmetic or `pop` changes shape -/
-theorem current_cfg_ok : CfgOK Drv.C05.cfg :=
-  ⟨fun i hi => by show i / 2 < i; omega, fun i => by show i < 2 * i + 1; omega, rfl⟩
+theorem pinned_std : Proofs.Heapq.CfgStd pinned where
+  left_eq := fun _ => rfl
+  right_eq := fun _ => rfl
+  start_ge := fun n => by simp only [pinned]; omega
+  noSiftUp := rfl
+
+/-- the configuration the driver runs (regenerated from heapq.go on every check) is in the class, and its
+`pop` does not repair upwards; this fails to elaborate — a broken obligation — as soon as the index
+arithmetic or `pop` changes shape.  (The class `CfgOK` itself no longer requires `popSiftsUp = false`: the
+accounting/callback theorems also cover a repaired `pop`.) -/
+theorem current_cfg_ok : CfgOK Drv.C05.cfg ∧ Drv.C05.cfg.popSiftsUp = false :=
+  ⟨⟨fun i hi => by show i / 2 < i; omega, fun i => by show i < 2 * i + 1; omega⟩, rfl⟩
+
+theorem current_cfg_eq : Drv.C05.cfg = pinned := Props.C05.cfg_eq_pinned
 
 /-- the empty cache `cache.New(limit, LRU())` -/
 def empty (limit : Int) : Cache := { limit := limit }
@@ -168,6 +193,49 @@ theorem C08_callbacks (cfg : Heapq.Cfg) (ok : CfgOK cfg) (sizeOf : Nat → Int) 
     List.append_nil _
   rw [← h2]; exact perm
 
+/-! ## 2b. `Put` evicts only what is needed -/
+
+/-- **C08, "the entries needed to make room" (unconditional; every `CfgOK` configuration, pinned or
+repaired; every `sizeOf ≥ 0`).**  Let a `Put k v` with `sizeOf v ≤ limit` be executed in a state satisfying
+the invariant, `c1 := putReplace … c k` the state after the replace step (`replaced c k` = the old entry for
+`k`, if any, reported first; `c1.size = c.size - Σ replaced`).  Then there is a list `gone` such that
+
+* the callbacks of this step are exactly `replaced c k` followed by `gone` (the log is most-recent-first);
+* `gone` is a prefix of the order in which the store yields its entries under successive `Evict`s from
+  `c1` (`evictSeq`);
+* every eviction was executed while the new entry did **not** fit: for each `j < gone.length`,
+  `c1.size + sizeOf v - Σ (first j of gone) > limit`;
+* after the last one it fits, `c1.size + sizeOf v - Σ gone ≤ limit`, and this is the new `size`;
+* if `c1.size + sizeOf v ≤ limit` then `gone = []`.
+
+Hence `gone.length` is the *least* `m` such that removing the first `m` entries of the store's yield order
+makes room (for `m < gone.length` it does not fit, for `m = gone.length` it does).  Which entries the store
+yields first is the LRU-order clause (`C08_refines_if_evict_min` and the theorems of §4/§5). -/
+theorem C08_evicts_only_when_needed (cfg : Heapq.Cfg) (ok : CfgOK cfg) (sizeOf : Nat → Int)
+    (hs : ∀ v, 0 ≤ sizeOf v) (c : Cache) (inv : Inv sizeOf c) (k v : Nat) (hfit : ¬ sizeOf v > c.limit) :
+    let c1 := putReplace cfg sizeOf c k
+    let c' := (step cfg sizeOf c (.put k v)).1
+    c1.size = c.size - sizeKV sizeOf (replaced c k) ∧
+    ∃ gone : List (Nat × Nat),
+      c'.evicted = gone.reverse ++ (replaced c k ++ c.evicted) ∧
+      gone = evictSeq cfg gone.length c1.store ∧
+      (∀ j, j < gone.length → c1.size + sizeOf v - sizeKV sizeOf (gone.take j) > c.limit) ∧
+      c1.size + sizeOf v - sizeKV sizeOf gone ≤ c.limit ∧
+      c'.size = c1.size + sizeOf v - sizeKV sizeOf gone ∧
+      (c1.size + sizeOf v ≤ c.limit → gone = []) := by
+  obtain ⟨a1, a2, _⟩ := putReplace_acct cfg sizeOf c k
+  obtain ⟨c', gone, hp, g1, g2, g3, g4, g5⟩ := put_needed ok hs inv k v hfit
+  refine ⟨a2, gone, ?_, g2, g3, g4, ?_, ?_⟩
+  · simp only [step, hp]; rw [g1, a1]
+  · simp only [step, hp]; exact g5
+  · intro hle
+    cases hg : gone with
+    | nil => rfl
+    | cons e rest =>
+      have := g3 0 (by rw [hg]; simp)
+      simp only [List.take_zero, sizeKV] at this
+      omega
+
 /-! ## 3. the recorded defect F2 -/
 
 /-- corpus/C08/F2.ops (limit 8, unit sizes) -/
@@ -229,10 +297,9 @@ theorem C08_refines_if_evict_min (cfg : Heapq.Cfg) (ok : CfgOK cfg) (sizeOf : Na
 of the heap that is kept by `pop` (at a valid offset) and by `add` of an element newer than all others,
 and that puts a minimal timestamp at the root (`HeapInv`: exactly what a heap-order theorem for the
 configuration — C05 — provides), then the hypothesis of `C08_refines_if_evict_min` holds on every history,
-i.e. the cache model refines the reference LRU cache unconditionally.  No instance is proved here (the
-pinned configuration has none: `C08_pinned_has_no_heap_invariant`; a configuration of the class that has
-one is the degenerate "sorted array" `parent i = i - 1, left i = i + 1, right lc = lc` — remark, not
-proved); the theorem is the bridge a repaired heap has to cross. -/
+i.e. the cache model refines the reference LRU cache unconditionally.  The pinned configuration has no such
+invariant (`C08_pinned_has_no_heap_invariant`); the repaired one has (`C08_repaired_has_heap_invariant`),
+and `C08_full_repaired` is the instance. -/
 theorem C08_full_if_heap_invariant (cfg : Heapq.Cfg) (ok : CfgOK cfg) (P : Heapq.H Entry → Prop)
     (hi : HeapInv cfg P) (sizeOf : Nat → Int) (hs : ∀ v, 0 ≤ sizeOf v) (limit : Int) (hl : 0 < limit)
     (ops : List Op) :
@@ -253,15 +320,117 @@ theorem C08_pinned_has_no_heap_invariant : ¬ ∃ P, HeapInv pinned P := by
   rw [C08_F2_witness.2.2.2] at h'
   cases h'
 
-/- The unconditional statement — NOT provable for the pinned heap (`C08_F2_witness` refutes it), and the
-obligation that a repaired heap configuration has to discharge (it amounts to `runMin … = true` for every
-history, i.e. to: `pop`/`add` keep the minimum of `lastAccess` at the root):
+/-! ## 5. the hypothesis discharged: histories without removal of an interior heap slot (pinned heap),
+and every history (repaired heap) -/
 
-theorem C08_full (cfg : Heapq.Cfg) (h : IsRepaired cfg) (sizeOf : Nat → Int) (hs : ∀ v, 0 ≤ sizeOf v)
-    (limit : Int) (hl : 0 < limit) (ops : List Op) :
+/-- **C08, LRU order for the pinned heap on every history that never touches a present key.**  For every
+configuration with the standard child layout, *any* parent index `< i` (F1 included) and `pop` without
+sift-up (F2 included) — in particular the pinned one — and every history from the empty cache on which no
+`Put` replaces an entry and no `Get`/`Remove` hits (`runMiss`; `Has`, `Len`, `Size`, `Clear` and refused
+`Put`s are unrestricted): the heap is only ever changed by `Add` of the newest timestamp (`pushUp` never
+swaps: `add_max_heap`) and by `pop(0)` (`pop0_heap`), so it stays in heap order, every `Evict` finds the
+minimal timestamp at the root, and the cache model refines the reference LRU cache — same outputs, same
+callback sequence: the victims of every `Put` are exactly the least-recently-used entries needed, in that
+order. -/
+theorem C08_lru_if_no_hit (cfg : Heapq.Cfg) (hstd : Proofs.Heapq.CfgStd cfg) (ok : CfgOK cfg)
+    (sizeOf : Nat → Int) (hs : ∀ v, 0 ≤ sizeOf v) (limit : Int) (hl : 0 < limit) (ops : List Op)
+    (hmiss : runMiss cfg sizeOf (empty limit) ops = true) :
+    runMin cfg sizeOf (empty limit) ops = true ∧
     outs cfg sizeOf (empty limit) ops = outsRef sizeOf { limit := limit } ops ∧
+    Abs (exec cfg sizeOf (empty limit) ops) (execRef sizeOf { limit := limit } ops) ∧
+    (exec cfg sizeOf (empty limit) ops).evicted.Perm (execRef sizeOf { limit := limit } ops).evicted ∧
     (Op.clear ∉ ops →
-      (exec cfg sizeOf (empty limit) ops).evicted = (execRef sizeOf { limit := limit } ops).evicted)
+      (exec cfg sizeOf (empty limit) ops).evicted = (execRef sizeOf { limit := limit } ops).evicted) := by
+  have hmin := runMin_of_heapInv0 ok (Proofs.CacheHeap.heapInv0_std hstd (Proofs.CacheHeap.cfgOK_heapq ok)) hs ops
+    (inv_empty sizeOf limit hl) Proofs.CacheHeap.heapOrd_nil hmiss
+  exact ⟨hmin, C08_refines_if_evict_min cfg ok sizeOf hs limit hl ops hmin⟩
+
+/-- **C08, LRU order on a syntactic class of histories (pinned heap, unconditional).**  `freshKeys [] ops`:
+every `Put` of the history uses a key that no earlier `Put` used, every `Get`/`Remove` names a key that no
+earlier `Put` used (so it misses); `Has`, `Len`, `Size`, `Clear` are unrestricted.  This contains all
+histories of pure insertion + eviction (`Put`s with pairwise distinct keys, no `Get`, no `Remove`).  On
+this class the model refines the reference LRU cache for every configuration with the standard child
+layout, any `parent i < i` and `pop` without sift-up. -/
+theorem C08_lru_no_interior_removal (cfg : Heapq.Cfg) (hstd : Proofs.Heapq.CfgStd cfg) (ok : CfgOK cfg)
+    (sizeOf : Nat → Int) (hs : ∀ v, 0 ≤ sizeOf v) (limit : Int) (hl : 0 < limit) (ops : List Op)
+    (hfresh : freshKeys [] ops = true) :
+    outs cfg sizeOf (empty limit) ops = outsRef sizeOf { limit := limit } ops ∧
+    Abs (exec cfg sizeOf (empty limit) ops) (execRef sizeOf { limit := limit } ops) ∧
+    (exec cfg sizeOf (empty limit) ops).evicted.Perm (execRef sizeOf { limit := limit } ops).evicted ∧
+    (Op.clear ∉ ops →
+      (exec cfg sizeOf (empty limit) ops).evicted = (execRef sizeOf { limit := limit } ops).evicted) :=
+  (C08_lru_if_no_hit cfg hstd ok sizeOf hs limit hl ops
+    (runMiss_of_fresh ok hs ops (inv_empty sizeOf limit hl) (fun k hk => by cases hk) hfresh)).2
+
+/-- … instantiated at the configuration the driver runs (regenerated from heapq.go) -/
+theorem C08_lru_no_interior_removal_current (sizeOf : Nat → Int) (hs : ∀ v, 0 ≤ sizeOf v) (limit : Int)
+    (hl : 0 < limit) (ops : List Op) (hfresh : freshKeys [] ops = true) :
+    outs Drv.C05.cfg sizeOf (empty limit) ops = outsRef sizeOf { limit := limit } ops ∧
+    Abs (exec Drv.C05.cfg sizeOf (empty limit) ops) (execRef sizeOf { limit := limit } ops) ∧
+    (exec Drv.C05.cfg sizeOf (empty limit) ops).evicted.Perm (execRef sizeOf { limit := limit } ops).evicted ∧
+    (Op.clear ∉ ops →
+      (exec Drv.C05.cfg sizeOf (empty limit) ops).evicted = (execRef sizeOf { limit := limit } ops).evicted) :=
+  C08_lru_no_interior_removal Drv.C05.cfg Props.C05.current_std current_cfg_ok.1 sizeOf hs limit hl ops hfresh
+
+/-- **C08, LRU order for the pinned heap on every history of a small cache.**  If every value has size
+`≥ 1` and `limit ≤ 4` (so that at most 4 entries are ever live: `length_le_limit`), then for every
+configuration with the standard child layout, any `parent i < i` and `pop` without sift-up — the pinned one
+in particular — the cache model refines the reference LRU cache on **every** history (replacing `Put`s,
+`Get`s, `Remove`s included): a heap of at most 4 elements stays in heap order under `pop` at every offset
+(`heapInvB_std`); the smallest heap on which F2 shows is one of 5 elements (removal at offset 3). -/
+theorem C08_lru_small_cache (cfg : Heapq.Cfg) (hstd : Proofs.Heapq.CfgStd cfg) (ok : CfgOK cfg)
+    (sizeOf : Nat → Int) (h1 : ∀ v, 1 ≤ sizeOf v) (limit : Int) (hl : 0 < limit) (hl4 : limit ≤ 4)
+    (ops : List Op) :
+    outs cfg sizeOf (empty limit) ops = outsRef sizeOf { limit := limit } ops ∧
+    Abs (exec cfg sizeOf (empty limit) ops) (execRef sizeOf { limit := limit } ops) ∧
+    (exec cfg sizeOf (empty limit) ops).evicted.Perm (execRef sizeOf { limit := limit } ops).evicted ∧
+    (Op.clear ∉ ops →
+      (exec cfg sizeOf (empty limit) ops).evicted = (execRef sizeOf { limit := limit } ops).evicted) := by
+  have hs : ∀ v, 0 ≤ sizeOf v := fun v => by have := h1 v; omega
+  exact C08_refines_if_evict_min cfg ok sizeOf hs limit hl ops
+    (runMin_of_heapInvB ok (Proofs.CacheHeap.heapInvB_std hstd (Proofs.CacheHeap.cfgOK_heapq ok)) h1 ops
+      (inv_empty sizeOf limit hl) Proofs.CacheHeap.heapOrd_nil (by show limit ≤ ((4 : Nat) : Int); omega))
+
+/-- … instantiated at the configuration the driver runs -/
+theorem C08_lru_small_cache_current (sizeOf : Nat → Int) (h1 : ∀ v, 1 ≤ sizeOf v) (limit : Int)
+    (hl : 0 < limit) (hl4 : limit ≤ 4) (ops : List Op) :
+    outs Drv.C05.cfg sizeOf (empty limit) ops = outsRef sizeOf { limit := limit } ops ∧
+    (Op.clear ∉ ops →
+      (exec Drv.C05.cfg sizeOf (empty limit) ops).evicted = (execRef sizeOf { limit := limit } ops).evicted) :=
+  let r := C08_lru_small_cache Drv.C05.cfg Props.C05.current_std current_cfg_ok.1 sizeOf h1 limit hl hl4 ops
+  ⟨r.1, r.2.2.2⟩
+
+/-- **C08, full theorem for the repaired heap.**  For every repaired configuration (`CfgRepaired`: standard
+child layout, `parent i = (i-1)/2`, `pop` sifts up under the guard `i < n` — e.g. `Props.C05.repaired`, for
+which C05 proves `C05_full`) the cache model refines the reference LRU cache on **every** history: same
+outputs, same callback sequence (up to order inside `Clear`).  This is the instance of
+`C08_full_if_heap_invariant` with heap order as the invariant (`pop_heap`, `add_heap`, `heap_root_min`).
+It says nothing about the current source (F1/F2 are pinned by `C05_current`); it records that they are the
+only obstacle to the unconditional LRU clause, and it is the theorem that applies once heapq.go is
+repaired. -/
+theorem C08_full_repaired (cfg : Heapq.Cfg) (hr : Proofs.Heapq.CfgRepaired cfg) (sizeOf : Nat → Int)
+    (hs : ∀ v, 0 ≤ sizeOf v) (limit : Int) (hl : 0 < limit) (ops : List Op) :
+    outs cfg sizeOf (empty limit) ops = outsRef sizeOf { limit := limit } ops ∧
+    Abs (exec cfg sizeOf (empty limit) ops) (execRef sizeOf { limit := limit } ops) ∧
+    (exec cfg sizeOf (empty limit) ops).evicted.Perm (execRef sizeOf { limit := limit } ops).evicted ∧
+    (Op.clear ∉ ops →
+      (exec cfg sizeOf (empty limit) ops).evicted = (execRef sizeOf { limit := limit } ops).evicted) :=
+  C08_full_if_heap_invariant cfg (Proofs.CacheHeap.cfgOK_cache hr.ok) Proofs.CacheHeap.HeapOrd
+    (Proofs.CacheHeap.heapInv_repaired hr) sizeOf hs limit hl ops
+
+/-- the bridge is not vacuous: the repaired configuration has a heap invariant (the pinned one has none) -/
+theorem C08_repaired_has_heap_invariant : ∃ P, HeapInv Props.C05.repaired P :=
+  ⟨_, Proofs.CacheHeap.heapInv_repaired Props.C05.repaired_ok⟩
+
+/- The unconditional statement for the configuration the driver runs — NOT provable for the pinned heap
+(`C08_F2_witness` refutes it); after a repair of heapq.go it is `C08_full_repaired` at `Drv.C05.cfg`
+(`IsRepaired cfg` = `Proofs.Heapq.CfgRepaired cfg`):
+
+theorem C08_full_current (sizeOf : Nat → Int) (hs : ∀ v, 0 ≤ sizeOf v)
+    (limit : Int) (hl : 0 < limit) (ops : List Op) :
+    outs Drv.C05.cfg sizeOf (empty limit) ops = outsRef sizeOf { limit := limit } ops ∧
+    (Op.clear ∉ ops →
+      (exec Drv.C05.cfg sizeOf (empty limit) ops).evicted = (execRef sizeOf { limit := limit } ops).evicted)
 -/
 
 /-! ## non-vacuity -/
@@ -292,6 +461,51 @@ example : runMin pinned demoSize (empty 8) demoOps = true ∧
 set_option maxRecDepth 100000 in
 example : (step pinned demoSize (exec pinned demoSize (empty 8) demoOps) .clear).1.evicted.length = 7 ∧
     (step pinned demoSize (exec pinned demoSize (empty 8) demoOps) .clear).2 = .unit := by
+  decide
+
+/-- `C08_evicts_only_when_needed` on a concrete step: in the state after `put 1 3, put 2 1, put 3 2` (sizes
+3, 1, 2; limit 8) a `Put 4 14` (size 4) evicts exactly one entry — 6 + 4 > 8, 3 + 4 ≤ 8 — and
+`Put 5 28` (size 8) evicts all three, in the store's yield order -/
+example : evictSeq pinned 3 (exec pinned demoSize (empty 8) [.put 1 3, .put 2 1, .put 3 2]).store =
+      [(1, 3), (2, 1), (3, 2)] ∧
+    (step pinned demoSize (exec pinned demoSize (empty 8) [.put 1 3, .put 2 1, .put 3 2]) (.put 4 14)).1.evicted =
+      [(1, 3)] ∧
+    (step pinned demoSize (exec pinned demoSize (empty 8) [.put 1 3, .put 2 1, .put 3 2]) (.put 5 28)).1.evicted =
+      [(3, 2), (2, 1), (1, 3)] ∧
+    (step pinned demoSize (exec pinned demoSize (empty 8) [.put 1 3, .put 2 1, .put 3 2]) (.put 6 2)).1.evicted =
+      [] := by
+  decide
+
+/-- a history of the syntactic class `freshKeys []` with evictions, a missing `Get`/`Remove`, `Has`, a
+refused `Put` and a `Clear` in mid-life -/
+def freshOps : List Op :=
+  [.put 1 3, .put 2 1, .put 3 2, .has 1, .put 4 14, .get 9, .put 5 23, .remove 7, .len, .put 8 9, .put 6 4,
+   .clear, .put 7 5, .put 10 4, .size]
+
+set_option maxRecDepth 100000 in
+example : freshKeys [] freshOps = true ∧
+    (exec pinned demoSize (empty 8) freshOps).evicted = [(7, 5), (6, 4), (5, 23), (4, 14), (3, 2), (2, 1), (1, 3)] ∧
+    freshKeys [] f2ops = false ∧ freshKeys [] demoOps = false := by
+  decide
+
+/-- a history with replacing `Put`s, hitting `Get`s and `Remove`s on a cache of limit 4 (unit sizes):
+`C08_lru_small_cache` applies; the callback sequence is the reference's -/
+def smallOps : List Op :=
+  [.put 1 1, .put 2 2, .put 3 3, .put 4 4, .get 2, .put 5 5, .remove 3, .put 1 6, .get 4, .put 6 7, .put 7 8,
+   .put 2 9, .remove 5, .put 8 10, .put 9 11]
+
+set_option maxRecDepth 100000 in
+example : (exec pinned (fun _ => 1) (empty 4) smallOps).evicted =
+      [(6, 7), (4, 4), (1, 6), (5, 5), (2, 2), (3, 3), (1, 1)] ∧
+    (exec pinned (fun _ => 1) (empty 4) smallOps).evicted = (execRef (fun _ => 1) { limit := 4 } smallOps).evicted ∧
+    freshKeys [] smallOps = false := by
+  decide
+
+set_option maxRecDepth 100000 in
+/-- the F2 history on the repaired configuration: the last `Put` evicts key 2, as the reference does -/
+example : (exec Props.C05.repaired (fun _ => 1) (empty 8) f2ops).evicted.head? = some (2, 40) ∧
+    (exec Props.C05.repaired (fun _ => 1) (empty 8) f2ops).evicted =
+      (execRef (fun _ => 1) { limit := 8 } f2ops).evicted := by
   decide
 
 end MdsVerif.Props.C08
